@@ -103,7 +103,10 @@ def project(prop, left):
     if left.startswith("case ") or left in ("bad-op", "bad-case"):
         return left
     f = fields(left)
-    parts = [f["outcome"]]
+    oc = f["outcome"]
+    if oc.startswith("panic:") and oc != "panic:inject":
+        oc = "panic:own"          # which check of the container fired, and its message text, are not compared
+    parts = [oc]
     if p.get("ret"):
         r = f.get("ret", "")
         parts.append("ret=" + (strip_ids(r) if p["ret"] == "c" else r))
